@@ -78,6 +78,31 @@ func stressMetrics(cfg M, tr *Trace, seed int64) {
 	tr.Emit(M{"e": "Totals", "what": "RTMetrics.TotalCount", "expect": G * K, "got": m.TotalCount()})
 	tr.Emit(M{"e": "Totals", "what": "RTMetrics.NetworkErrorCount", "expect": neterr.Load(), "got": m.NetworkErrorCount()})
 	tr.Emit(M{"e": "Totals", "what": "RTMetrics.StatusCodesCounts[200]", "expect": c200.Load(), "got": m.StatusCodesCounts()[200]})
+	// first-time paths: a fresh collector per round, all goroutines released together, each recording the same sequence of
+	// statuses the collector has never seen (lazily created per-status counters): every status must count every goroutine
+	rounds := numOr(cfg, "firsts", 300)
+	codes := []int{200, 404, 500, 502, 504, 301, 418}
+	worst, sum := int64(G), int64(0)
+	for round := 0; round < rounds; round++ {
+		fm, err := memmetrics.NewRTMetrics()
+		if err != nil {
+			fatal("NewRTMetrics: %v", err)
+		}
+		parallel(G, func(i int, r *rand.Rand) {
+			for _, c := range codes {
+				fm.Record(c, time.Millisecond)
+			}
+		}, seed+int64(round))
+		counts := fm.StatusCodesCounts()
+		for _, c := range codes {
+			sum += counts[c]
+			if counts[c] < worst {
+				worst = counts[c]
+			}
+		}
+	}
+	tr.Emit(M{"e": "Totals", "what": "first records of a status: smallest per-status count over all rounds", "expect": G, "got": worst})
+	tr.Emit(M{"e": "Totals", "what": "first records of a status: sum of per-status counts", "expect": rounds * G * len(codes), "got": sum})
 }
 
 // stressRate: every source has a burst and no refill (frozen clock): exactly burst requests are admitted.
